@@ -28,6 +28,7 @@ EXPLANATION = (
     "products of the later recorded sizes, digits are floor-division with the remainder "
     "carried, projected indices consume no digit. "
     'Round 7: (NOMUTATE) the adder and the gatherer never write in place into a value that may alias the per-slice results they are handed (assumption: an augmented assignment on a name unpacked from a tuple parameter counts as such a write). '
+    'Round 8 (engine E9): (KEYEVAL) the slice-number decoding is evaluated for every slice number of every bounded table and is a bijection onto the value combinations. '
 )
 ASSUMPTIONS = ("dict preserves insertion order; dataclass(order=True) compares fields in "
                "declaration order",)
@@ -908,5 +909,71 @@ def rule_nomutate(ctx):
     return r
 
 
-RULES = [rule_nomutate, rule_order, rule_pair, rule_multpair, rule_apply, rule_chunkkey, rule_combine, rule_copy, rule_cover, rule_freshchunk,
+def rule_keyeval(ctx):
+    """(engine E9) 'The slice numbers 0..nslices-1 correspond one-to-one to the combinations of values of the sliced
+    indices.'  `get_slice_strides` and `slice_key` are pure functions of the sliced-index table; their source is
+    evaluated for **every** slice number of every table with one to three entries — each entry sliced with size 1, 2
+    or 3 or projected to a value — and the decoded keys are checked: pairwise distinct, each value in its range, a
+    projected index always at its value, together exactly the product of the ranges."""
+    import itertools
+    import types
+
+    from ..engine.minieval import Mini, NoEval, Raised
+
+    r = RuleResult("C06-KEYEVAL", "slice numbers decode one-to-one onto the value combinations (bounded tables)", 1)
+    tc = tree_class(ctx)
+    f = tc.lookup("slice_key")
+    g = ctx.p.func(C.CORE, "get_slice_strides")
+    C.require(f is not None and g is not None, "slice_key / get_slice_strides not found")
+    fs = {"get_slice_strides": g.node}
+    k = ctx.key(f, "C06-KEYEVAL")
+    entries = [("s", 1), ("s", 2), ("s", 3), ("p", 0), ("p", 2)]
+    bad = None
+    n_tab = n_keys = 0
+    try:
+        for n in (1, 2, 3):
+            for combo in itertools.product(entries, repeat=n):
+                table = {}
+                ranges = []
+                for j, (kind, v) in enumerate(combo):
+                    nm = "xyz"[j]
+                    if kind == "s":
+                        table[nm] = types.SimpleNamespace(inner=True, ind=nm, size=v, project=None)
+                        ranges.append(list(range(v)))
+                    else:
+                        table[nm] = types.SimpleNamespace(inner=True, ind=nm, size=1, project=v)
+                        ranges.append([v])
+                nsl = 1
+                for info in table.values():
+                    nsl *= info.size
+                me = types.SimpleNamespace(sliced_inds=table)
+                n_tab += 1
+                keys = []
+                try:
+                    for i in range(nsl):
+                        key = Mini(fs, budget=5000).call(f.node, [me, i])
+                        n_keys += 1
+                        keys.append(tuple(key.get(nm) for nm in table))
+                except Raised as e:
+                    bad = bad or (combo, f"raises ({e.text})")
+                    continue
+                except NoEval:
+                    raise
+                except Exception as e:
+                    bad = bad or (combo, f"raises ({type(e).__name__}: {e})")
+                    continue
+                want = sorted(itertools.product(*ranges))
+                if sorted(keys) != want and bad is None:
+                    bad = (combo, f"slice numbers 0..{nsl - 1} decode to {keys}, the value combinations are {want}")
+    except NoEval as e:
+        raise AnalysisError(f"slice_key: not evaluable by the mini-evaluator ({e})")
+    if bad:
+        desc = ", ".join(f"{'sliced, size ' + str(v) if kd == 's' else 'projected to ' + str(v)}" for kd, v in bad[0])
+        r.violation(k, f.loc, f"for the table [{desc}]: {bad[1]}")
+    else:
+        r.ok(k, f.loc, f"{n_keys} slice numbers over {n_tab} tables decode one-to-one")
+    return r
+
+
+RULES = [rule_keyeval, rule_nomutate, rule_order, rule_pair, rule_multpair, rule_apply, rule_chunkkey, rule_combine, rule_copy, rule_cover, rule_freshchunk,
          rule_radix, rule_stack, rule_exprkey]
